@@ -1,8 +1,8 @@
 SPECIFICATION Spec
 CONSTANTS Family = "findlist"
-          MaxEdits = 3
-          UnivKinds = {"complete", "leafonly", "noisy"}
-          WithGt = TRUE
+          MaxEdits = 2
+          UnivKinds = {"noisy"}
+          WithGt = FALSE
 INVARIANT UnfoldIsDenote
 INVARIANT ErrorOnlyWhenDenoted
 INVARIANT AllTypedAndMatching
